@@ -290,3 +290,40 @@ func VerifC17_RuleTemplates() {
 	zzverif.SetMapOrder(zzverif.IntRange("mapOrder", 0, 1))
 	vCheckEnum(text)
 }
+
+// VerifC09_EnumRepeated: every operation of an enum rule repeats its answer on
+// the same object - also when the text is refused after some values have
+// already been read.
+func VerifC09_EnumRepeated() {
+	zzverif.Expect("accepted", "rejected")
+	texts := []string{"[1, 2, 2]", "[1, 2", "[1, 2] x", "[\"a\", \"b\", 1.5, \"a\"]", "[1, 2, 3]", "[]", "[1, // c\n 2,\n]", "[1 2]"}
+	e := New("e", texts[zzverif.IntRange("text", 0, len(texts)-1)])
+	first := zzverif.IntRange("first", 0, 2)
+	var c1, c2 bool
+	var n1, n2 int
+	run := func(op int) (bool, int) {
+		switch op {
+		case 0:
+			return e.Check() == nil, 0
+		case 1:
+			v, err := e.Values()
+			return err == nil, len(v)
+		default:
+			a, err := e.GetAST()
+			return err == nil, len(a.Children)
+		}
+	}
+	f1, _ := run(first)
+	c1, n1 = run(0)
+	zzverif.Assert(f1 == c1, "the first operation on a rule object and a later Check() agree on the verdict")
+	v1ok, v1n := run(1)
+	c2, n2 = run(0)
+	v2ok, v2n := run(1)
+	zzverif.Assert(c1 == c2 && n1 == n2, "Check() repeats its answer on the same rule object")
+	zzverif.Assert(v1ok == v2ok && v1n == v2n && v1ok == c1, "Values() repeats its answer and agrees with Check()")
+	if c1 {
+		zzverif.Reach("accepted")
+	} else {
+		zzverif.Reach("rejected")
+	}
+}
